@@ -8,7 +8,7 @@ _TB = ("Trusted: Lean 4.33 kernel; axioms propext, Classical.choice, Quot.sound 
        "native_decide, bv_decide; `decide +kernel` for finite tables); tools/gen_lean.py (literal extraction, fails closed on "
        "src/constants/mod.rs); the differential correspondence, whose strength is that of the generators printed in the evidence; "
        "tools/rs2lean.py (Rust-subset translator; its conventions are listed in DESIGN §13); Rust integer semantics modelled on unbounded Int (/,% as tdiv/tmod, checked_* as range tests); slices as List; "
-       "core::fmt padding and str::parse on digit strings modelled; the injected read_file_fn is a function of the path during one call and its calls are logged "
+       "core::fmt padding, str::parse on digit strings and core's lexicographic PartialOrd on integer pairs modelled; the injected read_file_fn is a function of the path during one call and its calls are logged "
        "(C20); `cfg(unix)` statements as `rustc --print cfg` has them; 64-bit usize; rustc/cargo and catch_unwind.")
 
 
